@@ -198,6 +198,19 @@ def fam_headers(rng, t, tier):
     for h in hs:
         for tg in (['/', '/secret.txt', '/inner.txt', '/sub/', '/nothing-here'] if tier != 'quick' else ['/secret.txt', rng.choice(['/', '/inner.txt', '/sub/', '/nothing-here', '/index.html'])]):
             out.append(K.mk(t, 'GET', tg, [h], entry=_entry(rng, app=True), kind='header'))
+    # the other way round: the TARGET climbs, and a header names a file that exists inside the root and ends the way a URL does before
+    # its query or fragment - a handler that glues a header value and the target into one URL checks the harmless half and opens the other
+    da = t.x.da
+    inroot = ['inner.txt', 'index.html', 'sub/inner.txt', 'sub/deep/inner.txt', '404.html']
+    climbs = ['/../secret.txt', '/' + '../' * (da + 1) + 'secret.txt', '/sub/../../secret.txt', '/../inner.txt']
+    for hn in ['Host', 'Host', 'X-Forwarded-Host', 'Referer', 'Origin']:
+        for f in (inroot if tier != 'quick' else [inroot[0], rng.choice(inroot[1:])]):
+            for tail in ('?', '#', '?x=', '#f', ''):
+                v = rng.choice(['x/', 'localhost/', 'localhost:80/', 'h//']) + f + tail
+                if hn in ('Referer', 'Origin'):
+                    v = 'http://' + v
+                for tg in (climbs if tier != 'quick' else [climbs[0], rng.choice(climbs[1:])]):
+                    out.append(K.mk(t, 'GET', tg, [(hn, v)] + rng.choice([[], [], [('Range', 'bytes=0-40')]]), entry=_entry(rng, app=True), kind='header'))
     return out
 
 def fam_own_names(rng, t, tier):
